@@ -307,7 +307,8 @@ register("C06",
 EXTRA = {
     "C01": " Level differences up to 495 kJ/mol (just below the cap) are covered by records whose entries are logged as mantissa and "
            "exponent (m * 2^e / 36) and compared exactly by SqraOps!QWide; shift invariance is also tried with offsets of +-tens of "
-           "thousands of kJ/mol.",
+           "thousands of kJ/mol. "
+           "Cell volumes are given in units of 2^-30, 2^-45 or 2^20 (exact rescaling), so tiny and huge positive volumes are covered.",
     "C02": " Every second grid is first asked for the partial (position-only / orientation-only) matrices of workflow run_grid; the "
            "total volumes are asked twice; a rotation grid with faces below 1e-5 (randomQ_44) is part of the plan.",
     "C03": " Before the checked read each grid goes through a getter history: the documented numerical estimate of the areas is "
@@ -317,22 +318,32 @@ EXTRA = {
            "check that every getter answers, symmetry, empty diagonal, one pattern, positivity and that every stored distance is "
            "the sign-folded angle of the two quaternions. Face areas are compared at 1e-8 absolute.",
     "C05": " Every getter is asked twice on the same PositionGrid; the second answer is the checked one.",
-    "C06": " The polygon inputs are additionally replayed at several sizes (embedding scales down to 1e-4).",
+    "C06": " The polygon inputs are additionally replayed at several sizes (embedding scales down to 1e-4). "
+           "Polygons are also embedded anisotropically (40:1, 50:2): long narrow faces.",
     "C07": " For rotation grids a caller first flips the half array handed out by the default getter in place (a copy on the pinned "
-           "tree); the grid read afterwards is the checked one.",
+           "tree); the grid read afterwards is the checked one. "
+           "The quick tier samples rotation grids up to N = 150 (randomQ 64, 100, 150; cube4D 64), the thorough tier every randomQ N to 272.",
     "C08": " Getters now include the convex hulls with and without helper points and the polytope nodes; error classes are "
            "compared as values.",
-    "C09": " The array is asked repeatedly before the checked read (single-radius and single-direction grids included).",
+    "C09": " The array is asked repeatedly before the checked read (single-radius and single-direction grids included). "
+           "A 70 000-row grid (index helpers around 2^15 and 2^16) and radii with 17 decimals on ico_42 are part of the plan.",
     "C10": " Generator frames are also held (not consumed one by one) before comparison, and the PtWriter path is run with "
-           "uncentred molecule files of different centres.",
+           "uncentred molecule files of different centres. "
+           "The first molecule is water-shaped, a single atom or non-planar in turn, and every row list contains exactly repeated rows.",
     "C13": " For every second input of the cut_and_merge enumeration ONE SQRA object serves all nine limit settings, limited "
            "calls first.",
     "C14": " The grid object is also asked for the partial matrices of workflow run_grid before / between the full ones (event "
            "Inspect, stuttering in the pipeline model), and the second rate build uses energies with a common offset of "
-           "-25000 .. +30000 kJ/mol.",
+           "-25000 .. +30000 kJ/mol. "
+           "The second rate build also has steps of 17-40 energy levels between neighbouring cells; the spectral clauses are checked on the gentle landscape.",
     "C15": " For N = 1 mod 3 the plain (vertex-only) hulls of the double-cover diagram are asked before the volumes.",
-    "C18": " The quick tier now subdivides cube and icosahedron four times (1538 / 2562 nodes).",
+    "C18": " The quick tier now subdivides cube and icosahedron four times (1538 / 2562 nodes). "
+           "The quick tier also subdivides the hypercube twice.",
 }
+EXTRA["C11"] = (" A planar molecule 40 A away from the origin (float32 coordinate noise) and water-shaped molecules in both atom orders (apex "
+                "first / last) are part of the plan; both found defects of the pinned tree that are repaired (10a5ec9, 25e1d5d).")
+EXTRA["C16"] = " Requests are also rendered with whitespace around them, and range requests whose stop lies 1e-3 nm above a grid point are included."
+EXTRA["C17"] = " The quick tier adds 6000 random names of four and five tokens."
 for _pid, _txt in EXTRA.items():
     CHECKS[_pid]["level_claimed"]["text"] += _txt
 CHECKS["C04"]["level_note"] = CHECKS["C04"]["level_note"].replace("face areas compared at 1e-5 absolute; N <= 60", "face areas compared at 1e-8 absolute; brute-force complex for N <= 60, structure-only beyond")
